@@ -79,7 +79,7 @@ impl<'a> Gen<'a> {
                 _ => {
                     let mut s = hostile_string(self.rng, 0, 5, true);
                     if self.rng.chance(1, 3) {
-                        s.push_str(*self.rng.pick(&["\"", "a\"b", "&", "x&y", "'", "<", "\u{a0}"]));
+                        s.push_str(*self.rng.pick(&["\"", "a\"b", "&", "x&y", "'", "<", "\u{a0}", "a &{b}; c", "?q=1&{lang}", "&{"]));
                     }
                     s
                 }
@@ -192,9 +192,11 @@ impl<'a> Gen<'a> {
                     }
                     _ => {
                         self.budget = self.budget.saturating_sub(1);
-                        let d = match self.rng.below(4) {
+                        let d = match self.rng.below(5) {
                             0 => None,
                             1 => Some("a>b".to_string()),
+                            // no '>' in it - unless a normalizer makes one of these characters
+                            4 => Some(self.rng.pick(&["a\u{ff1e}b", "x \u{226f} y"]).to_string()),
                             _ => Some(plain_string(self.rng, 1, 4)),
                         };
                         let mut pi = ANode::pi("pi", d.as_deref());
